@@ -3,6 +3,7 @@ package main
 import (
 	"fmt"
 	"sync"
+	"time"
 
 	fpgo "github.com/TeaEntityLab/fpGo/v2"
 	"github.com/TeaEntityLab/fpGo/v2/zzverif/vsched"
@@ -208,6 +209,79 @@ func twoChangers(a, b []string, bound int) *vsched.Scenario {
 	}
 }
 
+// slowSubscriber: SubscribeOn(h) with `subs` subscriptions of which the first keeps h busy for `busy` of (virtual) time
+// - 300 ms, 3 s, 10 min - while the deliveries to the others queue up behind it: every delivery still happens exactly
+// once, on h, one at a time, however long the others had to wait.
+func slowSubscriber(subs, chCap int, busy time.Duration, bound int) *vsched.Scenario {
+	fam := "slow-subscriber"
+	return &vsched.Scenario{
+		Name:    fmt.Sprintf("%s/subs%d/cap%d/busy-%v", fam, subs, chCap, busy),
+		Bound:   bound,
+		IdleGap: int64(2 * time.Hour),
+		Body: func() {
+			p := fpgo.PublisherNewGenerics[int]()
+			h := fpgo.Handler.NewByCh(make(chan func(), chCap))
+			p.SubscribeOn(h)
+			for s := 0; s < subs; s++ {
+				s := s
+				p.Subscribe(fpgo.Subscription[int]{OnNext: func(v int) {
+					vsched.Event("deliver", s, v, vsched.ThreadName())
+					if s == 0 {
+						time.Sleep(busy)
+					}
+					vsched.Event("deliver-end", s, v)
+				}})
+			}
+			vsched.Event("pub-begin", 1, vsched.ThreadName())
+			p.Publish(1)
+			p.Publish(2)
+			vsched.Event("pub-end")
+			time.Sleep(3 * busy) // (the deliveries are asynchronous: give them all the time they may need)
+			vsched.Event("settled")
+		},
+		Check: func(r *vsched.Result) []vsched.Failure {
+			fs := e1.Basic("C10", fam, r, nil)
+			if len(r.Panics) > 0 || e1.Index(r, "settled") < 0 {
+				return fs
+			}
+			pubThread, on, inside := "", "", 0
+			cnt := map[[2]int]int{}
+			var order []string
+			for _, e := range r.Events {
+				switch e.Kind {
+				case "pub-begin":
+					pubThread = e.Args[1].(string)
+				case "deliver":
+					cnt[[2]int{e.Args[0].(int), e.Args[1].(int)}]++
+					order = append(order, fmt.Sprintf("%d<-%d", e.Args[0], e.Args[1]))
+					th := e.Args[2].(string)
+					if th == pubThread {
+						fs = append(fs, e1.Fail("C10|"+fam+"|wrong-goroutine", "with SubscribeOn(h) a delivery ran on the publishing goroutine (the first subscriber keeps h busy for %v)", busy))
+					} else if on == "" {
+						on = th
+					} else if on != th {
+						fs = append(fs, e1.Fail("C10|"+fam+"|wrong-goroutine", "with SubscribeOn(h) deliveries ran on two goroutines (%s, %s) while the first subscriber keeps h busy for %v", on, th, busy))
+					}
+					if inside > 0 {
+						fs = append(fs, e1.Fail("C10|"+fam+"|overlap", "with SubscribeOn(h) two deliveries ran at the same time (the first subscriber keeps h busy for %v)", busy))
+					}
+					inside++
+				case "deliver-end":
+					inside--
+				}
+			}
+			for s := 0; s < subs; s++ {
+				for v := 1; v <= 2; v++ {
+					if n := cnt[[2]int{s, v}]; n != 1 {
+						fs = append(fs, e1.Fail("C10|"+fam+"|"+map[bool]string{true: "skipped", false: "invoked-twice"}[n == 0], "subscription %d received value %d %d time(s) although it stayed registered (the first subscriber keeps h busy for %v; deliveries %v)", s, v, n, busy, order))
+					}
+				}
+			}
+			return fs
+		},
+	}
+}
+
 func scenarios(tier string) []*vsched.Scenario {
 	b := 2
 	if tier == "thorough" {
@@ -221,6 +295,9 @@ func scenarios(tier string) []*vsched.Scenario {
 	out = append(out, concScenario(2, scripts[0], false, 2), concScenario(2, scripts[2], false, 2),
 		concScenario(1, scripts[0], true, b), concScenario(1, scripts[1], true, b), concScenario(2, nil, true, 2))
 	out = append(out, twoChangers([]string{"sub2"}, []string{"sub3"}, b), twoChangers([]string{"sub2"}, []string{"unsub1"}, b), twoChangers([]string{"unsub0"}, []string{"unsub1"}, b))
+	for _, busy := range []time.Duration{300 * time.Millisecond, 3 * time.Second, 10 * time.Minute} {
+		out = append(out, slowSubscriber(3, 1, busy, 1), slowSubscriber(4, 0, busy, 1))
+	}
 	if tier == "thorough" {
 		out = append(out, twoChangers([]string{"sub2", "sub4"}, []string{"sub3", "unsub0"}, 2))
 		out = append(out, concScenario(2, scripts[3], false, 2), concScenario(2, scripts[4], true, 2))
